@@ -92,6 +92,9 @@ class JaxDiscreteField(object):
     def __len__(self):
         return len(self.value)
 
+    # let 'ndarray * field' reach the reflected operators of the field
+    __array_ufunc__ = None
+
     @property
     def shape(self):
         return self.value.shape
